@@ -31,7 +31,34 @@ static bool csCommand(const std::string &cmd, Toks &t, Model &m, CSState &C, std
     out = "ok " + std::to_string(r);
     return true;
   }
+  if (cmd == "cs_bg") {   // enable Baumgarte stabilisation for one constraint group (also contact groups)
+    unsigned gidx = t.nat(); double tstab = t.rat();
+    cs.constraints[gidx]->setBaumgarteTimeConstant(tstab);
+    cs.enableBaumgarteStabilization(gidx);
+    return true;
+  }
   if (cmd == "cs_bind") { cs.Bind(m); return true; }
+  if (cmd == "cs_copyprobe") {
+    // C20: a second constraint set obtained with Copy(), bound to a second model (same tree, every joint frame
+    // and fixed-body frame displaced) and used there; nothing is reported -- the caller compares what the
+    // ORIGINAL (model, set) pair returns afterwards with a run that never made the copy
+    double sh = t.rat();
+    Model m2 = m;
+    for (size_t i = 0; i < m2.mFixedBodies.size(); i++) m2.mFixedBodies[i].mParentTransform.r += Vector3d(sh, -sh, 2 * sh);
+    for (size_t i = 1; i < m2.X_T.size(); i++) m2.X_T[i].r += Vector3d(-sh, sh, sh);
+    ConstraintSet cs2 = cs.Copy();
+    cs2.Bind(m2);
+    VectorNd q2 = VectorNd::Zero(m2.q_size), qd2 = VectorNd::Constant(m2.qdot_size, 0.1),
+             tau2 = VectorNd::Constant(m2.qdot_size, 0.2), qdd2 = VectorNd::Zero(m2.qdot_size);
+    for (size_t i = 1; i < m2.mJoints.size(); i++)
+      if (m2.mJoints[i].mJointType == JointTypeSpherical) m2.SetQuaternion(i, Math::Quaternion(0., 0., 0., 1.), q2);
+    try {
+      MatrixNd G2 = MatrixNd::Zero(cs2.size(), m2.qdot_size);
+      CalcConstraintsJacobian(m2, q2, cs2, G2, true);
+      ForwardDynamicsConstraintsDirect(m2, q2, qd2, tau2, cs2, qdd2);
+    } catch (...) {}
+    return true;
+  }
   if (cmd == "cs_solver") { cs.SetSolver(solverOf(t.nat())); return true; }
   if (cmd == "cs_actuation") {
     unsigned n = t.nat(); C.actuation.clear();
